@@ -455,6 +455,7 @@ func streamsFaults(r *common.Run, a *agg, out *outcomes, ref func(pp, n int) []b
 					continue // reported by streamsAll
 				}
 				nr, nw := rd.calls, w.calls
+				base := append([]byte(nil), w.buf...) // output of the healthy run (the salt is scripted: deterministic)
 				for kind := 0; kind < 2; kind++ {
 					n := nw
 					what := "write"
@@ -484,6 +485,17 @@ func streamsFaults(r *common.Run, a *agg, out *outcomes, ref func(pp, n int) []b
 							o[entry+" returned the injected "+what+" failure"]++
 						default:
 							o[entry+" stopped before the injected failure"]++
+						}
+						// a failed call must not leave anything behind: the same healthy call again
+						if fired && st == "" {
+							ev++
+							err2, st2 := run(s, 0, 0)
+							if st2 != "" || err2 != nil || !bytes.Equal(w.buf, base) {
+								o[entry+" differs after a failed call"]++
+								l.report(entry+"|wrong-output-after-a-failed-call|"+what+"-failure", s.rank(t.l)+int64(i), fmt.Sprintf("%s after a call whose %s #%d failed: output %s err=%v panic=%v, the same call before the failure gave %s", entry, what, i, hx(w.buf), err2, st2 != "", hx(base)), c(), "")
+							} else {
+								o[entry+" healthy again after a failed call"]++
+							}
 						}
 					}
 				}
